@@ -1421,9 +1421,12 @@ func (c *connection) Join(conn net.Conn, id string, dial gen.NetworkDial, tail [
 			c.log.Trace("joined new connection %s to the pool", conn.RemoteAddr().String())
 		}
 
-		c.serve(pi.connection, tail)
+		received := c.serve(pi.connection, tail)
 
-		if dial != nil {
+		// re-dial only a link that has been alive: if the peer closes a (re-)dialed
+		// link without sending anything it has dropped this connection, and dialing
+		// again would go on forever while the connection is never reported as lost
+		if dial != nil && received > 0 {
 			pool_dsn := []string{}
 			pool_dsn = append(pool_dsn, c.pool_dsn...)
 			rand.Shuffle(len(pool_dsn), func(i, j int) {
@@ -1482,7 +1485,8 @@ func (c *connection) Terminate(reason error) {
 	}
 }
 
-func (c *connection) serve(conn net.Conn, tail []byte) {
+// serve reads the link until it is closed. Returns the number of received frames.
+func (c *connection) serve(conn net.Conn, tail []byte) int {
 
 	recvN := 0
 	recvNQ := len(c.recvQueues)
@@ -1502,21 +1506,21 @@ func (c *connection) serve(conn net.Conn, tail []byte) {
 			}
 			lib.ReleaseBuffer(buf)
 			conn.Close()
-			return
+			return recvN
 		}
 
 		if buf.B[0] != protoMagic {
 			c.log.Error("recevied malformed packet from %s (incorrect proto)", conn.RemoteAddr())
 			lib.ReleaseBuffer(buf)
 			conn.Close()
-			return
+			return recvN
 		}
 
 		if buf.B[1] != protoVersion {
 			c.log.Error("recevied malformed packet from %s (incorrect proto version)", conn.RemoteAddr())
 			lib.ReleaseBuffer(buf)
 			conn.Close()
-			return
+			return recvN
 		}
 
 		recvN++
